@@ -28,6 +28,8 @@ CONSTANTS ChildCodes,    \* exit codes used by a child that exits first
                          \* signal (FALSE = the code: WaitStatus.Signal(); TRUE shows what that would break)
           RelabelOnCancel, \* BOOLEAN: the container host turns every result it receives after a cancel into TLE
                          \* (FALSE = the code: the reply of init is reported as it is)
+          ContainerSigTable, \* 0 = the code (a switch over the signal); k > 0: a lookup table with k entries
+                         \* guarded by `sig < k`, signals >= k keep the initial StatusNormal
           WaitGroup      \* BOOLEAN: the container init waits for the program's process group (-pid)
                          \* instead of the program (FALSE = the code; TRUE shows what that would break)
 
@@ -98,7 +100,8 @@ UnshareResult(ws) ==
 \* container: init converts the wait status into a reply, the host converts the reply
 InitReply(ws) ==
   CASE ws.t = "exited"   -> [error |-> "", status |-> IF ws.n # 0 THEN StNonzero ELSE StNormal, exit |-> ws.n]
-    [] ws.t = "signaled" -> [error |-> "", status |-> SwitchSignal(ws.n), exit |-> ws.n]
+    [] ws.t = "signaled" -> [error |-> "", exit |-> ws.n,
+                             status |-> IF ContainerSigTable > 0 /\ ws.n >= ContainerSigTable THEN StNormal ELSE SwitchSignal(ws.n)]
     [] OTHER             -> [error |-> "execve: unknown status", status |-> StInvalid, exit |-> 0]
 HostResult(rep) ==
   IF rep.error # "" THEN Res(StRunnerError, 0, rep.error) ELSE Res(rep.status, rep.exit, "")
